@@ -777,12 +777,24 @@ def extract_launch_shape(repo: Path) -> list[str] | None:
                 isinstance(n.value.func, ast.Name) and n.value.func.id in thread_cls and \
                 len(n.targets) == 1 and isinstance(n.targets[0], ast.Name):
             var_of[n.targets[0].id] = thread_cls[n.value.func.id]
+    # `for t in (inference_thread, training_thread): … t.join()` stands for one call per element
+    loop_of: dict[str, list[str]] = {}
+    for n in ast.walk(fn):
+        if isinstance(n, ast.For) and isinstance(n.target, ast.Name) and \
+                isinstance(n.iter, (ast.Tuple, ast.List)) and n.iter.elts and \
+                all(isinstance(e, ast.Name) and e.id in var_of for e in n.iter.elts):
+            loop_of[n.target.id] = [var_of[e.id] for e in n.iter.elts]
     events: list[tuple[int, int, str]] = []
     for n in ast.walk(fn):
         if not isinstance(n, ast.Call):
             continue
         f = n.func
         ev = None
+        if isinstance(f, ast.Attribute) and isinstance(f.value, ast.Name) and f.value.id in loop_of \
+                and f.attr in ("start", "join"):
+            for k, t in enumerate(loop_of[f.value.id]):
+                events.append((n.lineno, n.col_offset + k, f"{f.attr}:{t}"))
+            continue
         if isinstance(f, ast.Name) and f.id in thread_cls:
             ev = "thread:" + thread_cls[f.id]
         elif isinstance(f, ast.Attribute):
@@ -802,6 +814,8 @@ def extract_launch_shape(repo: Path) -> list[str] | None:
                 ev = "join:" + var_of[owner]
             elif f.attr == "run" and owner in var_of and var_of[owner] == "control":
                 ev = "control_run"
+            elif f.attr == "shutdown" and owner in var_of and var_of[owner] == "control":
+                ev = "shutdown:control"
         if ev:
             events.append((n.lineno, n.col_offset, ev))
     events.sort()
@@ -828,6 +842,8 @@ def shape_facts(seq: list[str]) -> dict:
         "load_before_thread_construction": load is not None and bool(threads) and load < min(threads),
         "load_before_thread_start": load is not None and bool(starts) and load < min(starts),
         "final_save_after_joins": save is not None and bool(joins) and max(joins) < save,
+        "threads_told_to_stop_before_joins": pos("shutdown:control") is not None and bool(joins)
+                                             and pos("shutdown:control") < min(joins),
         "final_save_after_time_scale_reset": save is not None and pos("reset_time_scale") is not None
                                              and pos("reset_time_scale") < save,
     }
